@@ -131,9 +131,12 @@ def check(case):
         g = layout.interpret(Tree(node), m)
         label = fmt(node)
     snap = graphm.snapshot(g)
-    for v in [None] + sorted(g.variables(), key=repr):
+    import pickle
+    for k_, v in enumerate([None] + sorted(g.variables(), key=repr)):
         if keyname == 'random':
             random.seed(case.get('rseed', 0))
+        # in rotation: the graph itself, a copy that went through pickle (what multiprocessing hands over), a deep copy
+        g = [g, pickle.loads(pickle.dumps(g)), copy.deepcopy(g)][k_ % 3]
         t = layout.reconfigure(g, top=v, model=m, key=key)
         g1 = _reinterpret(t, m)
         want_top = g.top if v is None else v
